@@ -178,6 +178,7 @@ func (w *World) init(over map[string]int) {
 		Grace:     time.Duration(w.cfg("grace_s")) * time.Second,
 		TraceFull: w.cfg("trace") != 0,
 	}
+	scfg.HB = w.cfg("hb") != 0
 	if w.cfg("fifo_senders") != 0 {
 		scfg.FIFOSubstr = ".outbox/go"
 	}
